@@ -247,6 +247,9 @@ def msmcheck(msm_lines, outdir):
     return bad, len(msm_lines)
 
 
+CUSTOM = {}
+
+
 class CompResult:
     def __init__(self):
         self.cases = 0
@@ -335,6 +338,77 @@ def finish_ped(res, model, impl, summ, outdir, t0):
     if "MSMCHECK total=" not in out:
         res.disagreements.append(("harness", 0, "msmcheck2 crashed: " + out[-300:]))
     res.msm_checked = res.cases * 2
+    res.wall = time.time() - t0
+    return res
+
+
+def run_translator():
+    rc, out = sh([sys.executable, os.path.join(VERIF, "tools", "gen_zorro_consts.py")], timeout=120)
+    return rc == 0, out.strip()
+
+
+def run_zorro_component(seed, tier, name):
+    """K12: constants / mul_by_a of the compiled crate against the translator's output"""
+    t0 = time.time()
+    res = CompResult()
+    res.outdir = os.path.join(WORK, name)
+    os.makedirs(res.outdir, exist_ok=True)
+    rc, out = sh([BIN, "zorro", "--seed", str(seed), "--tier", tier], timeout=600)
+    open(os.path.join(res.outdir, "zorro.txt"), "w").write(out)
+    if rc != 0:
+        res.disagreements.append(("harness", 0, "zorro component failed: " + out[-300:]))
+        return res
+    gj = os.path.join(COQ, "theories", "Gen", "ZorroConstsGen.json")
+    gen = json.load(open(gj)) if os.path.exists(gj) else None
+    vals = {}
+    mul = []
+    flags = []
+    for l in out.splitlines():
+        t = l.split()
+        if not t:
+            continue
+        if t[0] == "MULBYA":
+            mul.append((int(t[1]), int(t[2]), int(t[3])))
+        elif t[0] in ("KG_ONCURVE",):
+            flags.append((t[0], int(t[1])))
+        else:
+            vals[t[0]] = t[1:]
+    res.zorro = {"vals": vals, "mul": mul, "gen": gen}
+    res.cases = len(mul) + len(vals)
+    def dis(cid, text):
+        res.disagreements.append((cid, 0, text))
+    if gen is None:
+        dis("translator", "no translator output")
+    else:
+        q = int(gen["q"])
+        pairs = [("MODULUS_Q", "q"), ("MODULUS_R", "r"), ("COEFF_A", "a"), ("COEFF_B", "b"), ("GX", "gx"), ("GY", "gy")]
+        for k, g in pairs:
+            if int(vals[k][0]) != int(gen[g]):
+                dis(k, "%s: compiled crate %s, translated source %s" % (k, vals[k][0], gen[g]))
+        cof = sum(int(x) << (64 * i) for i, x in enumerate(vals["COFACTOR"]))
+        if cof != int(gen["cofactor"]) or int(vals["COFACTOR_INV"][0]) != 1:
+            dis("COFACTOR", "cofactor: compiled %s / inv %s" % (cof, vals["COFACTOR_INV"]))
+        def mul_gen(x):
+            env = {"x": x}
+            for nme, e in gen["lets"]:
+                env[nme] = sum(env[t.strip()] for t in e.split("+"))
+            return sum(env[t.strip()] for t in gen["final"].split("+")) % q
+        for x, m, e in mul:
+            if m != mul_gen(x):
+                dis("MULBYA", "mul_by_a(%d): compiled crate %d, translated routine %d" % (x, m, mul_gen(x)))
+                break
+    for k, want in (("ONCURVE_DECLARED", 1), ("ONCURVE_LIB", 1), ("RG_INF", 1), ("G_INF", 0)):
+        if int(vals[k][0]) != want:
+            dis(k, "%s = %s on the compiled crate" % (k, vals[k][0]))
+    for k, v in flags:
+        if v != 1:
+            dis(k, "k*G not on curve / not in subgroup")
+    for x, m, e in mul:
+        if m != e:
+            dis("MULBYA", "mul_by_a(x) != COEFF_A * x for x = %d" % x)
+            break
+    res.summary = {"zorro_consts": {"curve": "zorro", "line": "constants " + " ".join("%s=%s" % (k, v[0][:24]) for k, v in vals.items())},
+                   "zorro_mul_by_a": {"curve": "zorro", "line": "mul_by_a samples=%d (value edges, representation edges >= 2^255, random)" % len(mul)}}
     res.wall = time.time() - t0
     return res
 
